@@ -235,7 +235,7 @@ def translate(objdir):
 
 
 def ident(e):
-    return "d_" + re.sub(r"\W", "_", e)
+    return "D" + re.sub(r"\W", "_", e).replace("__", "_")
 
 
 def coq_list(items, indent="    "):
